@@ -16,6 +16,15 @@
    store_new / revert_new / read_new  transcribe core/state/{state,state_reader,history}.go,
    store_old / revert_old / read_old  transcribe core/deprecatedstate/{state,history,contract}.go.
    [truth] is the abstract ground truth: the state after each block as plain functions.
+
+   SYSTEM CONTRACTS 0x1 / 0x2 (core/state/state.go: SystemContracts; class hash 0, never listed under
+   deployed_contracts).  Both backends create a missing system contract when a storage diff names it,
+   with the very constructor used for deployed contracts (newContractDeployed / putNewContract: class hash 0,
+   nonce 0, deployment height = the block being applied - or being REVERTED, when the reverse diff is
+   applied) but write no class-hash history entry for it.  They are removed again "when their storage no
+   longer exists" (storage root zero): the new backend in commit(), i.e. in Update AND in Revert, for the
+   system contracts the block touched; the legacy backend only in Revert (purgesystemContracts), for
+   both system contracts, touched or not, followed by the check of the old state root.
    No proofs here; the file is extracted and run against the Go code. *)
 From Coq Require Import List NArith Bool.
 Import ListNotations.
@@ -164,14 +173,39 @@ Definition upd_dh (n : N) (d : diff) (m : smap N) : smap N :=
 Definition upd_store (l : list ((N * N) * N)) (m : smap N) : smap N :=
   foldd (fun e m => put_nz [fst (fst e); snd (fst e)] (snd e) m) l m.
 
+(* ---------- system contracts ---------- *)
+Definition mem (l : list N) (x : N) : bool := existsb (fun y => y =? x) l.
+Definition sys_addrs : list N := [1; 2].
+Definition is_sys (a : N) : bool := mem sys_addrs a.
+(* the address has an entry in StateDiff.StorageDiffs *)
+Definition touched (d : diff) (a : N) : bool := existsb (fun e => fst (fst e) =? a) (d_store d).
+(* the contract's storage trie is not empty (the bucket holds non-zero leaves only) *)
+Definition has_store (m : smap N) (a : N) : bool := existsb (fun e => has_prefix [a] (fst e)) m.
+Definition present (m : smap N) (a : N) : bool := match get m [a] with Some _ => true | None => false end.
+(* updateContractStorage / updateContractStorages: a system contract named by the storage diff that has no
+   contract record is created like a deployed contract with class hash 0 at the current block number *)
+Definition sys_missing (cls : smap N) (d : diff) : list N :=
+  filter (fun a => touched d a && negb (present cls a)) sys_addrs.
+Definition sys_new (cls : smap N) (d : diff) : list (N * N) := map (fun a => (a, 0)) (sys_missing cls d).
+(* the diff as the head buckets see it: the created system contracts count as deployments *)
+Definition with_sys (cls : smap N) (d : diff) : diff :=
+  mkDiff (sys_new cls d ++ d_deploy d) (d_replace d) (d_nonce d) (d_store d) (d_decl d).
+
 (* ---------- NEW backend ---------- *)
 (* State.Update ... writeHistory: post values at (prefix, block); replaced classes first, then
    deployed contracts. *)
 Definition store_new (s : st) (d : diff) : st :=
   let n := s_next s in
+  let dx := with_sys (s_class s) d in
+  let store' := upd_store (d_store d) (s_store s) in
+  (* commit(): a touched system contract whose storage root is zero is removed with its storage nodes *)
+  let gone := filter (fun a => touched d a && negb (has_store store' a)) sys_addrs in
   mkSt (n + 1)
-    (upd_class d (s_class s)) (upd_nonce d (s_nonce s)) (upd_dh n d (s_dh s))
-    (upd_store (d_store d) (s_store s)) (upd_decl n d (s_decl s))
+    (foldd (fun a m => del [a] m) gone (upd_class dx (s_class s)))
+    (foldd (fun a m => del [a] m) gone (upd_nonce dx (s_nonce s)))
+    (foldd (fun a m => del [a] m) gone (upd_dh n dx (s_dh s)))
+    (foldd (fun a m => del_prefix [a] m) gone store')
+    (upd_decl n d (s_decl s))
     (foldd (fun e m => put [fst (fst e); snd (fst e); n] (snd e) m) (d_store d) (s_lstore s))
     (foldd (fun e m => put [fst e; n] (snd e) m) (d_nonce d) (s_lnonce s))
     (foldd (fun e m => put [fst e; n] (snd e) m) (d_deploy d)
@@ -205,15 +239,24 @@ Definition revert_new (s : st) (d : diff) : option st :=
       let r_store := map (fun e => (fst e, rev_val_new (s_lstore s) [fst (fst e); snd (fst e)] n)) (d_store d) in
       let r_nonce := map (fun e => (fst e, rev_val_new (s_lnonce s) [fst e] n)) (d_nonce d) in
       let r_class := map (fun e => (fst e, rev_val_new (s_lclass s) [fst e] n)) (d_replace d) in
-      (* updateContracts(reverse diff), then deployed contracts are deleted with their storage *)
-      let class1 := foldd (fun e m => put [fst e] (snd e) m) r_class (s_class s) in
-      let nonce1 := foldd (fun e m => put [fst e] (snd e) m) r_nonce (s_nonce s) in
+      (* updateContracts(reverse diff): a system contract the reverse storage diff names and that has no
+         record (it was removed when its storage became empty) is created again, stamped with the number of
+         the block being reverted *)
+      let sx := sys_new (s_class s) d in
+      let class0 := foldd (fun e m => put [fst e] (snd e) m) sx (s_class s) in
+      let nonce0 := foldd (fun e m => put [fst e] 0 m) sx (s_nonce s) in
+      let dh0 := foldd (fun e m => put [fst e] n m) sx (s_dh s) in
+      let class1 := foldd (fun e m => put [fst e] (snd e) m) r_class class0 in
+      let nonce1 := foldd (fun e m => put [fst e] (snd e) m) r_nonce nonce0 in
       let store1 := upd_store r_store (s_store s) in
+      (* then deployed contracts are deleted with their storage, and commit() removes the touched system
+         contracts whose storage root is zero *)
+      let gone := filter (fun a => touched d a && negb (has_store store1 a)) sys_addrs in
       Some (mkSt n
-        (foldd (fun e m => del [fst e] m) (d_deploy d) class1)
-        (foldd (fun e m => del [fst e] m) (d_deploy d) nonce1)
-        (foldd (fun e m => del [fst e] m) (d_deploy d) (s_dh s))
-        (foldd (fun e m => del_prefix [fst e] m) (d_deploy d) store1)
+        (foldd (fun a m => del [a] m) gone (foldd (fun e m => del [fst e] m) (d_deploy d) class1))
+        (foldd (fun a m => del [a] m) gone (foldd (fun e m => del [fst e] m) (d_deploy d) nonce1))
+        (foldd (fun a m => del [a] m) gone (foldd (fun e m => del [fst e] m) (d_deploy d) dh0))
+        (foldd (fun a m => del_prefix [a] m) gone (foldd (fun e m => del_prefix [fst e] m) (d_deploy d) store1))
         decl'
         (* deleteHistory *)
         (foldd (fun e m => del [fst (fst e); snd (fst e); n] m) (d_store d) (s_lstore s))
@@ -229,10 +272,12 @@ Definition revert_new (s : st) (d : diff) : option st :=
    trie.Put reports a no-op, i.e. writing zero over an absent leaf. *)
 Definition store_old (s : st) (d : diff) : st :=
   let n := s_next s in
+  let dx := with_sys (s_class s) d in
   let class_dep := foldd (fun e m => put [fst e] (snd e) m) (d_deploy d) (s_class s) in
   let nonce_dep := foldd (fun e m => put [fst e] 0 m) (d_deploy d) (s_nonce s) in
+  (* no system contract is removed by Update, whatever its storage root *)
   mkSt (n + 1)
-    (upd_class d (s_class s)) (upd_nonce d (s_nonce s)) (upd_dh n d (s_dh s))
+    (upd_class dx (s_class s)) (upd_nonce dx (s_nonce s)) (upd_dh n dx (s_dh s))
     (upd_store (d_store d) (s_store s)) (upd_decl n d (s_decl s))
     (foldd (fun e m =>
         let old := getd (s_store s) [fst (fst e); snd (fst e)] in
@@ -267,14 +312,29 @@ Definition revert_old (s : st) (d : diff) : option st :=
     match map_opt (fun e => option_map (fun v => (fst e, v)) (rev_val_old (s_lnonce s) [fst e] n)) (d_nonce d),
           map_opt (fun e => option_map (fun v => (fst e, v)) (rev_val_old (s_lclass s) [fst e] n)) (d_replace d) with
     | Some r_nonce, Some r_class =>
-        let class1 := foldd (fun e m => put [fst e] (snd e) m) r_class (s_class s) in
-        let nonce1 := foldd (fun e m => put [fst e] (snd e) m) r_nonce (s_nonce s) in
+        (* updateContractStorages(reverse diff) deploys a missing system contract at the reverted block's number *)
+        let sx := sys_new (s_class s) d in
+        let class0 := foldd (fun e m => put [fst e] (snd e) m) sx (s_class s) in
+        let nonce0 := foldd (fun e m => put [fst e] 0 m) sx (s_nonce s) in
+        let dh0 := foldd (fun e m => put [fst e] n m) sx (s_dh s) in
+        let class1 := foldd (fun e m => put [fst e] (snd e) m) r_class class0 in
+        let nonce1 := foldd (fun e m => put [fst e] (snd e) m) r_nonce nonce0 in
         let store1 := upd_store r_store (s_store s) in
+        (* purgeContract: deployment height, class hash and nonce keys; storage is assumed cleared *)
+        let class2 := foldd (fun e m => del [fst e] m) (d_deploy d) class1 in
+        let nonce2 := foldd (fun e m => del [fst e] m) (d_deploy d) nonce1 in
+        let dh2 := foldd (fun e m => del [fst e] m) (d_deploy d) dh0 in
+        (* purgesystemContracts: EVERY system contract that exists with a zero storage root is purged, whether
+           the block touched it or not; then verifyStateUpdateRoot(OldRoot).  State roots are not modelled:
+           the check fails exactly when a purged contract was part of the state before the reverted block,
+           i.e. when its deployment height is below the reverted block's number (a contract stamped with that
+           number was created by the block, or just now by the reverse diff) *)
+        let gone := filter (fun a => present class2 a && negb (has_store store1 a)) sys_addrs in
+        if existsb (fun a => negb (getd dh2 [a] =? n)) gone then None else
         Some (mkSt n
-          (* purgeContract: deployment height, class hash and nonce keys; storage is assumed cleared *)
-          (foldd (fun e m => del [fst e] m) (d_deploy d) class1)
-          (foldd (fun e m => del [fst e] m) (d_deploy d) nonce1)
-          (foldd (fun e m => del [fst e] m) (d_deploy d) (s_dh s))
+          (foldd (fun a m => del [a] m) gone class2)
+          (foldd (fun a m => del [a] m) gone nonce2)
+          (foldd (fun a m => del [a] m) gone dh2)
           store1
           decl'
           (* performStateDeletions *)
@@ -350,18 +410,24 @@ Definition read_head (s : st) (q : query) : ans :=
   end.
 
 (* ---------- abstract ground truth ---------- *)
+(* System contracts: they hold storage only (class hash 0, nonce 0, never deployed by a transaction).  In
+   the protocol's state commitment a contract with class hash 0, nonce 0 and an empty storage is the EMPTY
+   leaf, and both backends remove a system contract "when its storage no longer exists"; so a system
+   contract EXISTS in the state after block n iff one of its slots is non-zero in that state.  It then has
+   class hash 0 and nonce 0.  [a_sysk] lists the system-contract slots written so far, which makes that
+   test computable. *)
 Record astate := mkA {
-  a_contract : N -> option (N * N);   (* address -> (class hash, nonce) *)
+  a_contract : N -> option (N * N);   (* address -> (class hash, nonce), ordinary contracts *)
   a_slot     : N -> N -> N;
-  a_decl     : N -> option N          (* class hash -> declared at *)
+  a_decl     : N -> option N;         (* class hash -> declared at *)
+  a_sysk     : list (N * N)           (* (system address, slot) pairs written so far *)
 }.
-Definition a_empty : astate := mkA (fun _ => None) (fun _ _ => 0) (fun _ => None).
+Definition a_empty : astate := mkA (fun _ => None) (fun _ _ => 0) (fun _ => None) [].
 
 Definition assoc (l : list (N * N)) (x : N) : option N :=
   match find (fun e => fst e =? x) l with Some e => Some (snd e) | None => None end.
 Definition assoc2 (l : list ((N * N) * N)) (x y : N) : option N :=
   match find (fun e => (fst (fst e) =? x) && (snd (fst e) =? y)) l with Some e => Some (snd e) | None => None end.
-Definition mem (l : list N) (x : N) : bool := existsb (fun y => y =? x) l.
 
 Definition apply_diff (a : astate) (n : N) (d : diff) : astate :=
   mkA
@@ -374,13 +440,20 @@ Definition apply_diff (a : astate) (n : N) (d : diff) : astate :=
                  match assoc (d_nonce d) x with Some v => v | None => nn end)
        end)
     (fun x k => match assoc2 (d_store d) x k with Some v => v | None => a_slot a x k end)
-    (fun h => match a_decl a h with Some b => Some b | None => if mem (d_decl d) h then Some n else None end).
+    (fun h => match a_decl a h with Some b => Some b | None => if mem (d_decl d) h then Some n else None end)
+    (map fst (filter (fun e => is_sys (fst (fst e))) (d_store d)) ++ a_sysk a).
+
+Definition sys_exists (a : astate) (x : N) : bool :=
+  existsb (fun e => (fst e =? x) && negb (a_slot a (fst e) (snd e) =? 0)) (a_sysk a).
+(* the contract at address x in the abstract state: (class hash, nonce) *)
+Definition a_exists (a : astate) (x : N) : option (N * N) :=
+  if is_sys x then (if sys_exists a x then Some (0, 0) else None) else a_contract a x.
 
 Definition lookup (a : astate) (q : query) : ans :=
   match q with
-  | QClass x => match a_contract a x with Some (c, _) => Found c | None => NotFound end
-  | QNonce x => match a_contract a x with Some (_, v) => Found v | None => NotFound end
-  | QSlot x k => match a_contract a x with Some _ => Found (a_slot a x k) | None => NotFound end
+  | QClass x => match a_exists a x with Some (c, _) => Found c | None => NotFound end
+  | QNonce x => match a_exists a x with Some (_, v) => Found v | None => NotFound end
+  | QSlot x k => match a_exists a x with Some _ => Found (a_slot a x k) | None => NotFound end
   | QDecl h => match a_decl a h with Some b => Found b | None => NotFound end
   end.
 
@@ -405,17 +478,26 @@ Fixpoint nodupk (l : list key) : bool :=
 Definition is_deployed (s : st) (d : diff) (a : N) : bool :=
   match get (s_class s) [a] with Some _ => true | None => mem (map fst (d_deploy d)) a end.
 
+(* System contracts are never deployed, replaced or given a nonce by a state diff (they are not accounts
+   and have no class); a storage entry may name them whether they exist or not. *)
 Definition valid_diffb (s : st) (d : diff) : bool :=
   nodupk (map (fun e => [fst e]) (d_deploy d)) &&
   nodupk (map (fun e => [fst e]) (d_replace d)) &&
   nodupk (map (fun e => [fst e]) (d_nonce d)) &&
   nodupk (map (fun e => [fst (fst e); snd (fst e)]) (d_store d)) &&
   nodupk (map (fun h => [h]) (d_decl d)) &&
-  forallb (fun e => match get (s_class s) [fst e] with Some _ => false | None => true end) (d_deploy d) &&
+  forallb (fun e => negb (is_sys (fst e)) && negb (present (s_class s) (fst e))) (d_deploy d) &&
   (* a class replacement targets a contract that existed before the block *)
-  forallb (fun e => match get (s_class s) [fst e] with Some _ => true | None => false end) (d_replace d) &&
-  forallb (fun e => is_deployed s d (fst e)) (d_nonce d) &&
-  forallb (fun e => is_deployed s d (fst (fst e))) (d_store d).
+  forallb (fun e => negb (is_sys (fst e)) && present (s_class s) (fst e)) (d_replace d) &&
+  forallb (fun e => negb (is_sys (fst e)) && is_deployed s d (fst e)) (d_nonce d) &&
+  forallb (fun e => is_sys (fst (fst e)) || is_deployed s d (fst (fst e))) (d_store d).
+
+(* the diff leaves every system contract it writes to with a non-empty storage.  Chains of such diffs are
+   the ones for which both backends answer every read correctly (C03_new / C03_old); a diff that EMPTIES a
+   system contract (or writes only zeros to a missing one) is stored by juno as well, and is where the
+   backends go wrong (C03_new_sys_refuted / C03_old_sys_refuted, C04_*_sys_refuted). *)
+Definition sys_guard (s : st) (d : diff) : bool :=
+  forallb (fun a => negb (touched d a) || has_store (upd_store (d_store d) (s_store s)) a) sys_addrs.
 
 (* the condition under which the legacy revert failed BEFORE juno commit 1b89e86 (DESIGN §8.1): no zero
    write to a slot that is absent.  No theorem needs it any more; kept for the oracle's diagnostics. *)
@@ -443,6 +525,17 @@ Definition step (store : st -> diff -> st) (revert : st -> diff -> option st)
 Definition run_new (ops : list op) : st * list diff := fold_left (step store_new revert_new) ops (st_empty, []).
 Definition run_old (ops : list op) : st * list diff := fold_left (step store_old revert_old) ops (st_empty, []).
 
+(* an operation sequence all of whose accepted Stores satisfy [sys_guard] on the state they are applied to *)
+Definition gstep (store : st -> diff -> st) (revert : st -> diff -> option st)
+                 (cg : (st * list diff) * bool) (o : op) : (st * list diff) * bool :=
+  (step store revert (fst cg) o,
+   snd cg && match o with
+             | Store d => negb (valid_diffb (fst (fst cg)) d) || sys_guard (fst (fst cg)) d
+             | Revert => true
+             end).
+Definition sys_guarded_new (ops : list op) : bool := snd (fold_left (gstep store_new revert_new) ops ((st_empty, []), true)).
+Definition sys_guarded_old (ops : list op) : bool := snd (fold_left (gstep store_old revert_old) ops ((st_empty, []), true)).
+
 (* the property predicate, evaluated by the harness on the implementation's answers as well:
    an observed answer [o] for query q at block n of chain rc is right iff it equals the truth *)
 Definition ans_eqb (x y : ans) : bool :=
@@ -452,3 +545,105 @@ Definition ans_eqb (x y : ans) : bool :=
   | _, _ => false
   end.
 Definition c03_ok (rc : list diff) (q : query) (n : N) (o : ans) : bool := ans_eqb o (lookup (truth_at rc n) q).
+
+(* ---------- CASM-hash metadata of Sierra classes ----------
+   core/class.go ClassCasmHashMetadata {declaredAt, casmHashV2, migratedAt, casmHashV1} and
+   blockchain/statebackend/casm_metadata.go (store / revert), read by CompiledClassHash of the head readers
+   (CasmHash) and of the history readers (CompiledClassHashAt = CasmHashAt(block)) of BOTH state backends.
+   The bucket is independent of the state buckets above: a little machine of its own. *)
+Record meta := mkMeta {
+  m_at   : N;           (* declaredAt *)
+  m_migr : N;           (* migratedAt, 0 = not migrated *)
+  m_v1   : option N;    (* casmHashV1: absent for classes declared from 0.14.1 on *)
+  m_v2   : N            (* casmHashV2: declared, or pre-computed from the delivered CASM *)
+}.
+(* what a block says about Sierra classes *)
+Record cblk := mkCblk {
+  c_v2   : bool;                  (* protocol version >= 0.14.1 *)
+  c_decl : list (N * (N * N));    (* DeclaredV1Classes: class -> (compiled class hash in the diff,
+                                     Blake2s hash of the delivered CASM) *)
+  c_migr : list (N * N)           (* MigratedClasses: class -> new compiled class hash *)
+}.
+
+(* NewCasmHashMetadataDeclaredV2 / DeclaredV1 *)
+Definition casm_declare (n : N) (v2 : bool) (e : N * (N * N)) : meta :=
+  if v2 then mkMeta n 0 None (fst (snd e)) else mkMeta n 0 (Some (fst (snd e))) (snd (snd e)).
+
+(* storeCasmHashMetadata: V1 protocol stores the declarations only; V2 protocol also marks the migrated
+   classes (metadata read through the reader, i.e. as it was before the block; a missing record or a
+   refused Migrate fails the Store - excluded by [cvalid]) *)
+Definition casm_store (n : N) (b : cblk) (m : smap meta) : smap meta :=
+  let m1 := foldd (fun e m' => put [fst e] (casm_declare n (c_v2 b) e) m') (c_decl b) m in
+  if c_v2 b then
+    foldd (fun e m' => match get m [fst e] with
+                       | Some md => put [fst e] (mkMeta (m_at md) n (m_v1 md) (m_v2 md)) m'
+                       | None => m'
+                       end) (c_migr b) m1
+  else m1.
+
+(* revertCasmHashMetadata: delete the declared, Unmigrate the migrated ones *)
+Definition casm_revert (b : cblk) (m : smap meta) : smap meta :=
+  foldd (fun e m' => match get m [fst e] with
+                     | Some md => put [fst e] (mkMeta (m_at md) 0 (m_v1 md) (m_v2 md)) m'
+                     | None => m'
+                     end) (c_migr b)
+    (foldd (fun e m' => del [fst e] m') (c_decl b) m).
+
+(* CasmHashAt(height) *)
+Definition casm_read (m : smap meta) (h n : N) : ans :=
+  match get m [h] with
+  | None => NotFound
+  | Some md =>
+      if n <? m_at md then NotFound else
+      Found (match m_v1 md with
+             | None => m_v2 md
+             | Some v1 => if (0 <? m_migr md) && (m_migr md <=? n) then m_v2 md else v1
+             end)
+  end.
+(* CasmHash() *)
+Definition casm_head (m : smap meta) (h : N) : ans :=
+  match get m [h] with
+  | None => NotFound
+  | Some md => Found (match m_v1 md with
+                      | None => m_v2 md
+                      | Some v1 => if 0 <? m_migr md then m_v2 md else v1
+                      end)
+  end.
+
+(* the truth: the compiled class hash the chain's diffs give a class *)
+Definition cassoc {B} (l : list (N * B)) (x : N) : option B :=
+  match find (fun e => fst e =? x) l with Some e => Some (snd e) | None => None end.
+Definition capply (t : N -> option N) (b : cblk) : N -> option N :=
+  fun h => match t h with
+           | Some v => match cassoc (c_migr b) h with Some v' => Some v' | None => Some v end
+           | None => match cassoc (c_decl b) h with Some e => Some (fst e) | None => None end
+           end.
+Fixpoint ctruth (rc : list cblk) : N -> option N :=
+  match rc with [] => fun _ => None | b :: older => capply (ctruth older) b end.
+Definition ctruth_at (rc : list cblk) (n : N) : N -> option N := ctruth (skipn (length rc - S (N.to_nat n)) rc).
+Definition ans_of (o : option N) : ans := match o with Some v => Found v | None => NotFound end.
+
+(* blocks juno stores and every Starknet chain satisfies: a class is declared once; a migration names a
+   class declared under the old hash and not yet migrated, in a >= 0.14.1 block, and its new hash is the
+   Blake2s hash of the CASM delivered at declaration *)
+Definition cvalid (m : smap meta) (b : cblk) : bool :=
+  nodupk (map (fun e => [fst e]) (c_decl b)) &&
+  forallb (fun e => match get m [fst e] with Some _ => false | None => true end) (c_decl b) &&
+  nodupk (map (fun e => [fst e]) (c_migr b)) &&
+  forallb (fun e => c_v2 b &&
+                    match get m [fst e] with
+                    | Some md => (m_migr md =? 0) && (match m_v1 md with Some _ => true | None => false end) && (m_v2 md =? snd e)
+                    | None => false
+                    end) (c_migr b).
+
+Inductive cop := CStore (b : cblk) | CRevert.
+Definition clen (rc : list cblk) : N := N.of_nat (length rc).
+Definition cstep (c : smap meta * list cblk) (o : cop) : smap meta * list cblk :=
+  let (m, rc) := c in
+  match o with
+  | CStore b => if cvalid m b then (casm_store (clen rc) b m, b :: rc) else c
+  | CRevert => match rc with [] => c | b :: older => (casm_revert b m, older) end
+  end.
+Definition crun (ops : list cop) : smap meta * list cblk := fold_left cstep ops ([], []).
+(* the predicate the harness evaluates on the implementation's answers *)
+Definition casm_ok (rc : list cblk) (h n : N) (o : ans) : bool := ans_eqb o (ans_of (ctruth_at rc n h)).
